@@ -68,3 +68,41 @@ Section Verifier.
                end
     end.
 End Verifier.
+
+(* ---- partial results of op.VerifyIDTokenHint and its two callers ----
+   A hint that parses (object payload, well-typed claims). The verifier of a Provider has no
+   acr / max-age settings, so the checks are issuer, signature, exp, iat. An expiry-related
+   failure is returned TOGETHER WITH the claims (IDTokenHintExpiredError); the callers
+   (ValidateEndSessionRequest, ValidateAuthReqIDTokenHint) tolerate that error and go on to
+   claims.GetSubject(). *)
+Inductive tpos := TAbsent | TPast | TFuture.
+Inductive hcaller := HEndSession | HAuthorize.
+
+Record hint := { h_issuer_ok : bool; h_sig_ok : bool; h_exp : tpos; h_iat : tpos }.
+
+Inductive hverdict := HFatal | HTolerated | HValid.
+
+(* [keep]: every tolerated failure hands the claims back (false = a missing / future iat returns nil claims) *)
+Definition verify_hint (keep : bool) (h : hint) : hverdict * option unit :=
+  if negb (h_issuer_ok h) then (HFatal, None)
+  else if negb (h_sig_ok h) then (HFatal, None)
+  else match h_exp h with
+       | TFuture =>
+           match h_iat h with
+           | TPast => (HValid, Some tt)
+           | _ => (HTolerated, if keep then Some tt else None)     (* ErrIatMissing / ErrIatInFuture *)
+           end
+       | _ => (HTolerated, Some tt)                                 (* ErrExpired (exp absent = zero time) *)
+       end.
+
+Inductive hres := HRefused | HAccepted | HPanic | HDouble.
+
+(* both callers: a fatal verdict is answered with an error; otherwise the subject is read from the claims *)
+Definition hint_caller (keep : bool) (c : hcaller) (h : hint) : hres :=
+  match verify_hint keep h with
+  | (HFatal, _) => HRefused
+  | (_, claims) => match deref claims with
+                   | Ok _ => HAccepted
+                   | _ => HPanic
+                   end
+  end.
